@@ -215,7 +215,7 @@ def check_property(mod, world, tier="quick", seed=0):
             if ans != "unknown":
                 ob["status"], ob["backend"] = ans, "cvc5"
         ob.pop("smt2", None)
-        b = by_backend[ob.get("backend", "z3")]
+        b = by_backend.setdefault(ob.get("backend", "z3"), {"count": 0, "secs": 0.0})
         b["count"] += 1
         b["secs"] = round(b["secs"] + ob["secs"], 3)
 
@@ -236,7 +236,8 @@ def check_property(mod, world, tier="quick", seed=0):
     canaries = [o for o in obligs if o["tag"] == "canary"]
     # canaries: each deliberately false clause must be refuted on at least one path
     can_ids = sorted({o["name"] for o in canaries if prop in o["name"].split("/")[0].split("+")})
-    can_ok = {c: any(o["status"] == "sat" for o in canaries if o["name"] == c) for c in can_ids}
+    # a canary is fine when some path could NOT discharge it (refuted, or no proof found because of quantifiers)
+    can_ok = {c: any(o["status"] != "unsat" for o in canaries if o["name"] == c) for c in can_ids}
     for c, ok in can_ok.items():
         if not ok:
             rep.say(f"ENGINE-ERROR property={prop}: canary {c} was not refuted (vacuous path conditions or lost effect)")
@@ -313,7 +314,37 @@ def check_property(mod, world, tier="quick", seed=0):
         rep.bump(EXIT_VIOLATION)
     for line in known_lines:
         rep.say(line)
+    # no verdict on a property obligation: the bounded native search stands in (DESIGN.md section 6)
+    und_prop = [o for o in undecided if o["tag"] == "property"]
+    searched = {}
     for ob in undecided:
+        if ob["tag"] == "property" and hasattr(mod, "bounded_search"):
+            if ob["unit"] not in searched:
+                try:
+                    searched[ob["unit"]] = mod.bounded_search(world, ob["unit"])
+                except Exception:  # noqa: BLE001
+                    searched[ob["unit"]] = None
+                    sys.stderr.write(traceback.format_exc())
+            fails = searched[ob["unit"]]
+            if fails:
+                key = (ob["name"],)
+                if key in reported:
+                    continue
+                reported.add(key)
+                if any(finding_matches(fd, prop, ob) for fd in kf.get("findings", [])):
+                    rep.say(f"KNOWN-FINDING: property={prop} {ob['name']} in {ob['unit']} (undecided by the solvers, failing input found by the bounded search)")
+                    continue
+                fname = f"{prop}-{hashlib.sha1((ob['name'] + '|undecided').encode()).hexdigest()[:10]}.json"
+                path = os.path.join("evidence", "replays", fname)
+                with open(os.path.join(VERIF, path), "w") as f:
+                    json.dump({"property": prop, "obligation": ob["name"], "unit": ob["unit"], "path": ob["path"],
+                               "solver": {"backend": ob["backend"], "answer": "unknown (z3 and cvc5)", "seconds": ob["secs"]},
+                               "native_replay": fails[0], "note": "the obligation, discharged on the unchanged tree, is no longer provable; "
+                               "the bounded native search produced this failing input"}, f, indent=1, default=str)
+                rep.violations += 1
+                rep.say(f"VIOLATION property={prop} replay={path} obligation={ob['name']} unit={ob['unit']} (solvers undecided; failing input from the bounded search)")
+                rep.bump(EXIT_VIOLATION)
+                continue
         rep.say(f"UNDECIDED property={prop} obligation={ob['name']} unit={ob['unit']}")
         rep.bump(EXIT_UNDECIDED)
 
